@@ -147,6 +147,21 @@ def _ast_rules(ctx, repo, f):
         ctx.check(True, 'C09.1', 'cursor:no-name-capture:%s' % cur, site, 'no inner loop / with / walrus rebinds the argument cursor')
 
 
+def _log_mode_reads_nil_new_id(repo):
+    """does the argument pattern of log mode (constant-folded from WlPatterns.__init__) accept the printer's `new id T#nil`?"""
+    from .. import rx
+    import re as _re
+    init = repo.try_func('WlPatterns.__init__')
+    if init is None:
+        return False
+    try:
+        env, pats = rx.fold_strings(init.node)
+        pat = pats['arg_re'][0]
+        return _re.match(pat, 'new id wl_callback#nil') is not None
+    except Exception:
+        return False
+
+
 def _appended(p, recv):
     """the arguments reported on this path, in order: what is appended to the list `recv`, or - when `recv` holds the value of a
     comprehension that was run as the loop it abbreviates - the elements that comprehension produced"""
@@ -442,6 +457,9 @@ def run(ctx):
                     if not (me and mr and me.group(2) == idx and me.group(1) == mr.group(1)):
                         problems.setdefault('value:array-elements', 'array elements are %s for index %s in %s' % (elt, idx, rng))
         want_made = set(KIND[c]) | ({('Array:elements', None)} if c == 'a' else set())
+        if c == 'n' and ('Null', None) in made and _log_mode_reads_nil_new_id(repo):
+            # libwayland prints a null new id as `new id T#nil`; a tree whose log mode reads that spelling may report it in GDB mode too
+            want_made = want_made | {('Null', None)}
         ctx.check(made == want_made, 'C09.3', 'kind:%s' % c, site, 'code %s -> %s (as log mode decodes the printed form)' % (c, sorted(KIND[c], key=str)),
                   'code %s produces %s, log mode decodes its print-out as %s' % (c, sorted(made, key=str), sorted(want_made, key=str)))
         names = {'i': ['value:int'], 'u': ['value:int'], 'h': ['value:fd'], 'f': ['value:fixed-formula'], 's': ['value:string-null-guard'],
